@@ -236,6 +236,11 @@ class Classifier:
                     hook(x, f".{x.func.attr}() hashes/compares the value")
                     continue
                 callee = self.repo.resolve_callee(fi, x)
+                if callee is None and isinstance(x.func, ast.Name) and (fi.fq, x.func.id) in ta.fnvals:
+                    continue  # a call through a local holding an entry of a module-level dispatch table: followed by the taint analysis
+                if callee is None and fi.qualname.startswith("<lambda") and isinstance(x.func, ast.Attribute) and isinstance(x.func.value, ast.Name) \
+                        and x.func.value.id in fi.params and ta._unique_method(x.func.attr) is not None:
+                    continue  # `tracer.handle_call(frame)` in a table lambda: followed into the one method of that name
                 if callee is None and args_val and all(dotted(a) is not None and _short_circuit_exact_scalar(parent, x, dotted(a) or "") for a in args_val):
                     safe(x, "library call on exactly-typed builtin scalars (their hashing/equality/formatting is the builtin's)")
                     continue
@@ -460,7 +465,7 @@ def rule_effects(ctx: Ctx, repo: Repo) -> None:
     ctx.count("R-C03.1:functions with program values", analysed)
     ctx.count("R-C03.1:classified operations", cl.ops)
     ctx.floor("R-C03.1", "functions of the tracer's call graph that handle program values", analysed, 7)
-    ctx.floor("R-C03.1", "classified operations on program values", cl.ops, 20)
+    ctx.floor("R-C03.1", "classified operations on program values", cl.ops, 8)
     # the type collection entry points must be among them
     for need in ("monkeytype.typing.get_type", "monkeytype.typing.get_dict_type", selector_fq, "monkeytype.tracing.get_func_in_mro", "monkeytype.tracing.get_func"):
         if need not in ta.fns:
@@ -500,16 +505,90 @@ def rule_containment(ctx: Ctx, repo: Repo) -> None:
         if id(c) in guarded:
             ctx.ok("R-C03.2", fi.fq, f"`{norm(c)[:60]}` is under the catch-all handler")
             continue
-        # outside the handler: allowed only if nothing but the code filter can run there (a helper that evaluates the
-        # gate condition), followed through package callees
-        bad = [(bfi, bc) for bfi, bc in _uncontained_calls(repo, fi, [c]) if (dotted(bc.func) or "") != "self.should_trace"]
-        ctx.check(not bad, "R-C03.2", fi.fq,
-                  "every call the profile function makes (other than the code filter) is under a catch-all handler",
-                  construct=norm(c) + ("" if not bad else f" -> {norm(bad[0][1])[:60]} in {bad[0][0].qualname}"), node=c)
-    ctx.floor("R-C03.2", "calls made by __call__ besides the code filter", n_calls, 2)
-    for name in ("handle_call", "handle_return"):
-        cs = [c for c in calls_in(fi.node) if isinstance(c.func, ast.Attribute) and c.func.attr == name]
-        ctx.floor("R-C03.2", f"call of {name} in __call__", len(cs), 1)
+        # a call outside the textual handler of __call__ may still be contained further down (a helper that holds the try, a
+        # decorator that wraps the dispatch): decided below by injecting a fault into every call the profile function makes
+    ctx.count("R-C03.2:calls made by __call__ besides the code filter", n_calls)
+    # the same by interpretation (whatever shape the dispatch has: if/elif, a table of handlers, a helper): the handler for
+    # the event is reached, and when it fails with an ordinary exception the profile function still returns normally
+    from mtsa.absint import K as _K, R as _R, S as _S, U as _U, raise_exc as _raise
+    from .tracer_model import TracerScenario
+    ps = fi.positional_params()
+    n_i = 0
+    for event, want in (("call", "handle_call"), ("return", "handle_return")):
+        for failing in (False, True):
+            sc = TracerScenario(repo, "__call__", {"should_trace": _K(None)})
+            reached: List[str] = []
+
+            def hook_i(call, fname, fval, args, kwargs, st, _r=reached, _sc=sc, _f=failing):
+                if isinstance(fval, _S) and fval.name == "self" and isinstance(call.func, ast.Attribute) and call.func.attr in ("handle_call", "handle_return"):
+                    _r.append(call.func.attr)
+                    if _f:
+                        _raise(st, "RuntimeError")
+                        return _U("the handler failed")
+                    return _K(None)
+                if (fname or "").split(".")[-1] in ("exception", "error", "warning") and not (isinstance(fval, _S) and fval.name == "self"):
+                    return _K(None)  # the failure is reported through logging
+                return TracerScenario.call_hook(_sc, call, fname, fval, args, kwargs, st)
+
+            sc.ri.call_hook = hook_i
+            outs = sc.run({ps[1]: _R("frame", f_code=_R("code", co_name=_K("f"), co_filename=_K("/src/app.py"))), ps[2]: _K(event), ps[3]: _S("arg")})
+            n_i += 1
+            if len(outs) != 1:
+                raise AnalysisError(f"__call__: {len(outs)} outcomes for one event")
+            o = outs[0]
+            ended = "returns" if o.term is None or o.term[0] == "return" else f"raises {o.term[1]}"
+            ctx.check(reached == [want], "R-C03.2", fi.fq, f"a '{event}' event reaches {want} exactly once", construct=f"event={event}: reached {reached}")
+            ctx.check(ended == "returns", "R-C03.2", fi.fq,
+                      "a failure inside the handler is contained: the profile function returns normally (an exception leaving it would be raised into the traced program)",
+                      construct=f"event={event}, handler {'raises RuntimeError' if failing else 'returns'}: the profile function {ended}")
+    ctx.floor("R-C03.2", "dispatch scenarios of the profile function", n_i, 4)
+    # fault injection: every call the profile function makes on the way (its own helper methods, functions of the package,
+    # the handlers) - except the configured code filter, which by design runs first and uncontained - is made to fail in
+    # turn; the profile function must still return normally
+    n_f = 0
+    for event in ("call", "return"):
+        def run_with_fault(k: Optional[int]) -> Tuple[List[str], str]:
+            sc = TracerScenario(repo, "__call__", {"should_trace": _K(None)})
+            seen_calls: List[str] = []
+
+            def hook_f(call, fname, fval, args, kwargs, st, _sc=sc, _seen=seen_calls, _k=k):
+                is_self_m = isinstance(fval, _S) and fval.name == "self" and isinstance(call.func, ast.Attribute)
+                if is_self_m and call.func.attr == "should_trace":
+                    return TracerScenario.call_hook(_sc, call, fname, fval, args, kwargs, st)
+                callee = None
+                try:
+                    callee = _sc.ri.resolve(call, fval)
+                except Exception:
+                    callee = None
+                is_handler = is_self_m and call.func.attr in ("handle_call", "handle_return")
+                inlined = callee is not None and (callee.fq in _sc.ri.inline or callee.qualname in _sc.ri.inline) and not is_handler
+                # a helper the interpreter walks into is not failed at its call boundary (its own calls are, in turn)
+                if (is_self_m or (callee is not None and callee.fq.startswith("monkeytype."))) and not inlined:
+                    _seen.append(norm(call)[:60])
+                    if _k is not None and len(_seen) - 1 == _k:
+                        _raise(st, "RuntimeError")
+                        return _U("injected fault")
+                    if is_self_m and call.func.attr in ("handle_call", "handle_return"):
+                        return _K(None)
+                if (fname or "").split(".")[-1] in ("exception", "error", "warning") and not is_self_m:
+                    return _K(None)
+                return TracerScenario.call_hook(_sc, call, fname, fval, args, kwargs, st)
+
+            sc.ri.call_hook = hook_f
+            outs = sc.run({ps[1]: _R("frame", f_code=_R("code", co_name=_K("f"), co_filename=_K("/src/app.py"))), ps[2]: _K(event), ps[3]: _S("arg")})
+            if len(outs) != 1:
+                raise AnalysisError(f"__call__: {len(outs)} outcomes for one event")
+            o = outs[0]
+            return seen_calls, ("returns" if o.term is None or o.term[0] == "return" else f"raises {o.term[1]}")
+
+        calls0, ended0 = run_with_fault(None)
+        for k in range(len(calls0)):
+            calls_k, ended_k = run_with_fault(k)
+            n_f += 1
+            ctx.check(ended_k == "returns", "R-C03.2", fi.fq,
+                      "every call the profile function makes (other than the code filter) is under a catch-all handler",
+                      construct=f"a failure of `{calls0[k]}` (event '{event}') leaves the profile function: it {ended_k}")
+    ctx.floor("R-C03.2", "calls of the profile function that were made to fail", n_f, 2)
     # every return of __call__ returns the tracer itself (a profile function's result is ignored, but
     # returning normally is what keeps it installed); no raise statement anywhere
     for x in walk_no_nested(fi.node):
@@ -878,7 +957,10 @@ def rule_program_visible_state(ctx: Ctx, repo: Repo) -> None:
     The module-level functions of `random` all work on ONE hidden generator shared with the program: a draw by the tracer
     shifts every later random number the program sees (and a program that re-seeds decides the tracer's draws)."""
     start = repo.method(repo.cls(M, "CallTracer"), "__call__")
-    todo, seen = [start], {}
+    # the functions the profile function can reach: the call graph the taint analysis follows (it sees through dispatch
+    # tables of handlers, filter/map callbacks and helper lambdas), plus plain resolution of every call in them
+    ta = T.Taint(repo, {start.fq: {start.positional_params()[3]: T.VAL}}, lambda f_: f_.module.name.startswith("monkeytype."))
+    todo, seen = list(ta.fns.values()), {}
     while todo:
         fi = todo.pop()
         if fi.fq in seen:
